@@ -22,6 +22,7 @@ BUILDS = [("c07_tls", "plain"), ("c07_tls", "asan"), ("c07_tls", "tsan")]   # ts
 
 CLIENT_ENTRIES = ("transport-client", "http-client")
 SERVER_ENTRIES = ("transport-server", "http-server")
+SEQ_ENTRY = "http-client-seq"     # two requests on ONE HttpClient object
 
 # ------------------------------------------------------------------ what the coordinates mean
 # server certificates a peer (or iora's own server) can present
@@ -60,13 +61,13 @@ ISSUER_TAG = {"self": "self-signed", "forged-A": "forged-issuer"}
 
 DEFAULTS = dict(peer="openssl", garbage=0, verify="off", trust="none", icert=None, imin=0, tlscfg="enabled",
                 pcert=None, pauth="none", pverify="off", pmax=13, target="ip", api="async", send="late", lvl0=0,
-                life="fresh")
+                life="fresh", seq="single", speer="-", verify1="-", trust1="-")
 
 
 def mk(entry, **kw):
     c = dict(DEFAULTS)
     c["entry"] = entry
-    if entry in CLIENT_ENTRIES or entry == "raw-raw":
+    if entry in CLIENT_ENTRIES or entry in ("raw-raw", SEQ_ENTRY):
         c["icert"], c["pcert"] = "none", "valid"
     else:
         c["icert"], c["pcert"] = "valid", "none"
@@ -150,6 +151,35 @@ def expect(c):
     if eithers:
         return "either", [], eithers
     return "accept", [], []
+
+
+# sequence -> (scheme of request 1, scheme of request 2, setTlsConfig between the requests?, keep-alive?)
+SEQS = {
+    "http-then-https": ("http", "https", False, True),
+    "https-then-http": ("https", "http", False, True),
+    "settls-tighten":  ("https", "https", True, False),
+    "settls-loosen":   ("https", "https", True, False),
+}
+
+
+def expect_seq(c):
+    """-> [(scheme, verdict, reasons, eithers)] for request 1 and request 2 of a sequence cell. Each https
+    request is judged by the ordinary matrix predicate for the TLS configuration IN FORCE when it is made;
+    an http request was not requested with TLS: nothing to say about it."""
+    s1, s2, settls, _ = SEQS[c["seq"]]
+    out = []
+    for i, scheme in enumerate((s1, s2)):
+        if scheme != "https":
+            out.append((scheme, "either", [], ["not-requested-with-tls"]))
+            continue
+        if c["speer"] == "plain":
+            out.append((scheme, "reject", ["plaintext-peer"], []))
+            continue
+        first = settls and i == 0
+        cc = mk("http-client", verify=c["verify1"] if first else c["verify"], trust=c["trust1"] if first else c["trust"],
+                pcert=c["pcert"], target=c["target"])
+        out.append((scheme,) + expect(cc))
+    return out
 
 
 def accept_class(c):
@@ -243,6 +273,23 @@ def matrix():
         add(mk(E, peer="plaintext", verify=verify, trust="default-right", target="name"))
         for g in range(4):
             add(mk(E, peer="garbage", garbage=g, verify=verify, trust="default-right", target="name"))
+
+    # ---- HTTP client, two requests on one client object: scheme switches on the same host:port and
+    #      setTlsConfig() between the requests
+    E = SEQ_ENTRY
+    for verify, trust in (("off", "none"), ("on", "ca-right")):
+        for target in ("ip", "name"):
+            add(mk(E, seq="http-then-https", speer="plain", verify=verify, trust=trust, target=target))
+            add(mk(E, seq="https-then-http", speer="dual", verify=verify, trust=trust, target=target))
+    for verify, trust, pcert in (("off", "none", "valid"), ("on", "ca-right", "valid"), ("on", "ca-right", "wrongca"),
+                                 ("on", "ca-right", "wrongname"), ("on", "ca-right", "expired")):
+        add(mk(E, seq="http-then-https", speer="dual", verify=verify, trust=trust, pcert=pcert, target="name"))
+    for pcert in ("valid", "wrongca", "selfsigned", "expired", "wrongname"):
+        add(mk(E, seq="settls-tighten", speer="dual", verify1="off", trust1="none", verify="on", trust="ca-right", pcert=pcert, target="name"))
+    add(mk(E, seq="settls-tighten", speer="dual", verify1="on", trust1="ca-wrong", verify="on", trust="ca-right", pcert="wrongca", target="name"))
+    for pcert in ("wrongca", "selfsigned"):
+        add(mk(E, seq="settls-loosen", speer="dual", verify1="on", trust1="ca-right", verify="off", trust="none", pcert=pcert, target="name"))
+    add(mk(E, seq="settls-loosen", speer="dual", verify1="on", trust1="ca-right", verify="on", trust="ca-wrong", pcert="wrongca", target="name"))
 
     # ---- transport server
     E = "transport-server"
@@ -341,7 +388,12 @@ def harness_line(c, cid):
              life=c.get("life", "fresh"))
     t = TRUST[c["trust"]]
     f.update(cafile=t["cafile"], capath=t["capath"], defstore=t["defstore"])
-    if c["entry"] in CLIENT_ENTRIES or c["entry"] == "raw-raw":
+    if c["entry"] == SEQ_ENTRY:
+        s1, s2, settls, reuse = SEQS[c["seq"]]
+        f.update(seq=c["seq"], s1=s1, s2=s2, settls=int(settls), reuse=int(reuse), speer=c["speer"])
+        if settls:
+            f.update(verify1=c["verify1"], cafile1=TRUST[c["trust1"]]["cafile"])
+    if c["entry"] in CLIENT_ENTRIES or c["entry"] in ("raw-raw", SEQ_ENTRY):
         ic = c["icert"]
         if ic == "mismatch":
             f.update(icertf="cli-trusted", ikeyf="other")
@@ -394,6 +446,54 @@ def admitted(c, o):
         rc = o.get("rawclient", {})
         if rc.get("rx_bytes", 0) > 0 or p.get("rx_bytes", 0) > 0: why.append("reference peers exchanged data")
     return why
+
+
+def judge_seq(c, o):
+    """sequence cells: same contract as judge()."""
+    if o.get("harness_error"):
+        return [], "harness error: " + o["harness_error"], []
+    viols, cnt, retry = [], [], None
+    p, r = o.get("peer", {}), o.get("relay", {})
+    label = "http-client:seq-" + c["seq"]
+    cnt += ["cells_executed", "seq_cells[%s]" % c["seq"]]
+    for i, (scheme, verdict, reasons, eithers) in enumerate(expect_seq(c), 1):
+        st, tok, err = o.get("r%d_status" % i, 0), o.get("r%d_body_has_token" % i), o.get("r%d_err" % i, "")
+        seen = [q for q in p.get("reqs", []) if q.get("tok") == i]
+        adm = []
+        if st: adm.append("request %d: HTTP response obtained (status %s)" % (i, st))
+        if seen: adm.append("request %d reached the peer (%s)" % (i, "over TLS" if seen[0]["tls"] else "IN CLEAR"))
+        cnt.append("verdict_" + verdict)
+        if scheme == "https":
+            if r.get("c2s_has_tok%d" % i):
+                # one refuting event, one key: the request left in clear (its "admission" is the same event)
+                viols.append(("C07:cleartext:%s:https-request-on-wire" % label,
+                              "request %d was made with an https:// URL; its request line (with the 32-byte token) is visible in "
+                              "clear in the bytes the client put on the wire; %s" % (i, "; ".join(adm))))
+                continue
+            if seen and seen[0]["tls"]:
+                cnt.append("seq_https_request_seen_over_tls")
+            if verdict == "reject":
+                if adm:
+                    viols.append(("C07:%s:%s:admitted" % (label, "+".join(reasons)), "must-reject request admitted: " + "; ".join(adm)))
+                else:
+                    cnt += ["must_reject_refused"] + ["refused[%s]" % t for t in reasons]
+                    if "certificate verify failed" in err.lower(): cnt.append("iora_verify_failures_seen")
+            elif verdict == "accept":
+                if st == 200 and tok and seen and seen[0]["tls"]:
+                    cnt.append("must_accept_admitted")
+                else:
+                    retry = "must-accept request %d refused: %s" % (i, err)
+                    if "timed out" not in err.lower() and "timeout" not in err.lower() and not r.get("c2s_has_tok%d" % i):
+                        viols.append(("C07:%s:%s:rejected" % (label, accept_class(mk("http-client", verify=c["verify"], trust=c["trust"]))),
+                                      "must-accept request %d did not complete over TLS: status=%s err=%s" % (i, st, err)))
+            else:
+                cnt.append("either_admitted" if adm else "either_refused")
+        else:
+            cnt.append("either_admitted" if adm else "either_refused")
+            if seen: cnt.append("seq_http_request_went_" + ("over_tls_session" if seen[0]["tls"] else "in_clear"))
+    if r.get("conns", 0) == 1 and len(p.get("reqs", [])) == 2: cnt.append("seq_second_request_reused_connection")
+    if r.get("conns", 0) >= 2: cnt.append("seq_second_request_new_connection")
+    return viols, retry, cnt
 
 
 def judge(c, o):
@@ -547,11 +647,13 @@ def _coords(c):
 
 def signature(c, verdict, reasons, eithers, adm):
     return "|".join([c["entry"], verdict, "+".join(reasons) or "+".join(eithers) or accept_class(c), c["peer"],
-                     str(c["garbage"]) if c["peer"] == "garbage" else "", c["api"], c["send"], c["life"], "adm" if adm else "ref"])
+                     str(c["garbage"]) if c["peer"] == "garbage" else "", c["api"], c["send"], c["life"],
+                     c["seq"] + "/" + c["speer"] + "/" + c["verify1"], "adm" if adm else "ref"])
 
 
 # ------------------------------------------------------------------------ quick covering subset
-COORDS = ("peer", "garbage", "verify", "trust", "icert", "imin", "tlscfg", "pcert", "pauth", "pverify", "pmax", "target", "api", "send", "life")
+COORDS = ("peer", "garbage", "verify", "trust", "icert", "imin", "tlscfg", "pcert", "pauth", "pverify", "pmax", "target", "api", "send", "life",
+          "seq", "speer", "verify1", "trust1")
 
 
 def covering_subset(cells, rng, target):
@@ -560,6 +662,11 @@ def covering_subset(cells, rng, target):
     feats = []
     for c in cells:
         f = set((c["entry"], k, c[k]) for k in COORDS)
+        if c["entry"] == SEQ_ENTRY:
+            ex = expect_seq(c)
+            f.add((SEQ_ENTRY, "seq-class", c["seq"], c["speer"], ex[0][1], ex[1][1], "+".join(ex[1][2])))
+            feats.append(f)
+            continue
         v, reasons, eithers = expect(c)
         if v == "reject":
             if len(reasons) == 1: f.add((c["entry"], "solo-reject", reasons[0]))
@@ -689,7 +796,7 @@ def _execute(ctx, bins, pki, cells, refs, chunk_size):
             res, probs, rrs2 = _run_batch(ctx, binary, pki, [(cid, c)], "iso-%s-%d-%d" % (fl, cid, attempt), c["lvl0"])
             rrs_all += rrs2
             o = res.get(cid)
-            if o is None or c["entry"] == "raw-raw" or not (o.get("watchdog") or (judge(c, o)[1] and _is_deadline(o))):
+            if o is None or c["entry"] in ("raw-raw", SEQ_ENTRY) or not (o.get("watchdog") or (judge(c, o)[1] and _is_deadline(o))):
                 break
         return (fl, cid, why, res, probs, rrs_all)
     for fl, cid, why, res, probs, rrs2 in vf.run_many(ctx, [lambda a=a: iso(*a) for a in reruns], workers=4):
@@ -711,8 +818,13 @@ def _judge_one(ctx, fl, cid, c, o, final):
     or is inconclusive (final=True)."""
     if c["entry"] == "raw-raw":
         return judge_reference(c, o, ctx)
-    viols, retry, counters = judge(c, o)
-    verdict, reasons, eithers = expect(c)
+    if c["entry"] == SEQ_ENTRY:
+        viols, retry, counters = judge_seq(c, o)
+        ex = expect_seq(c)
+        verdict, reasons, eithers = ex[1][1], ex[1][2], ex[1][3]
+    else:
+        viols, retry, counters = judge(c, o)
+        verdict, reasons, eithers = expect(c)
     if retry:
         unusable = not viols
         if not final:
@@ -724,7 +836,7 @@ def _judge_one(ctx, fl, cid, c, o, final):
             return retry
     for n in counters:
         ctx.obs(n)
-    adm = admitted(c, o)
+    adm = admitted(c, o) if c["entry"] != SEQ_ENTRY else [k for k in ("r1_status", "r2_status") if o.get(k)]
     sample = None
     seen = ctx.extra.setdefault("_sampled", set())
     tag = (c["entry"], verdict)
@@ -776,11 +888,13 @@ def run(ctx):
     refs = reference_cells()
     _execute(ctx, bins, pki, cells, refs, 20 if thorough else 10)
     ctx.extra.pop("_sampled", None)
-    nrej = sum(1 for c in cells if expect(c)[0] == "reject")
-    nacc = sum(1 for c in cells if expect(c)[0] == "accept")
+    def _v(c):
+        return expect_seq(c)[1][1:3] if c["entry"] == SEQ_ENTRY else expect(c)[0:2]
+    nrej = sum(1 for c in cells if _v(c)[0] == "reject")
+    nacc = sum(1 for c in cells if _v(c)[0] == "accept")
     ctx.extra["matrix"] = dict(pruned_matrix_cells=len(full), cells_run=len(cells), must_reject=nrej, must_accept=nacc,
                                either=len(cells) - nrej - nacc, reference_cells=len(refs),
-                               must_reject_classes=len(set((c["entry"], "+".join(expect(c)[1])) for c in cells if expect(c)[0] == "reject")))
+                               must_reject_classes=len(set((c["entry"], c["seq"], "+".join(_v(c)[1])) for c in cells if _v(c)[0] == "reject")))
     ctx.rule = ("one evaluation = one matrix cell executed for real on one build flavor (iora Transport client/server, HttpClient, "
                 "HttpServer against an independent libssl / plaintext / garbage peer through a recording relay); expected outcome from "
                 "coordinates only; distinct = (entry, verdict, reject reasons | accept class | either class, peer kind, call path, "
@@ -800,7 +914,9 @@ def run(ctx):
                     "config_failfast_seen", "early_send_cells", "reference_cells", "handshakes_completed",
                     "negotiated_tls1.2", "negotiated_tls1.3", "tls_requested_not_configured_cells",
                     "lifecycle_first_start_failed_at_cert_load", "lifecycle_retry_started_after_provisioning",
-                    "lifecycle_retry_kept_failing", "lifecycle_restart_started_twice")
+                    "lifecycle_retry_kept_failing", "lifecycle_restart_started_twice",
+                    "seq_cells[http-then-https]", "seq_cells[https-then-http]", "seq_cells[settls-tighten]",
+                    "seq_cells[settls-loosen]", "seq_https_request_seen_over_tls")
 
 
 def replay(ctx, path):
